@@ -269,3 +269,98 @@ def fdom(cx, body, A, B, what, key=None):
             cx.bad("%s|%s" % (k, body.id), "%s: a feasible path reaches `%s` without passing %s" % (what, b.primary, names(A)), b.where(), fn=body.id)
             allok = False
     return allok
+
+
+# ---- field-level read / write summaries of `&mut self` methods -----------------------------------------------
+def self_aliases(b):
+    """locals that are (re)borrows / copies of the `self` reference (param 1)"""
+    S = {1}
+    ch = True
+    while ch:
+        ch = False
+        for i, j, lhs, rv, line in b.assigns():
+            if len(lhs) != 1 or lhs[0] in S:
+                continue
+            if rv[0] == "use" and rv[1][0] in ("c", "m") and rv[1][1][0] in S and all(p == "*" for p in rv[1][1][1:]):
+                S.add(lhs[0])
+                ch = True
+            elif rv[0] == "ref" and rv[2][0] in S and all(p == "*" for p in rv[2][1:]):
+                S.add(lhs[0])
+                ch = True
+    return S
+
+
+def _self_field(S, pl):
+    if pl[0] not in S:
+        return None
+    for p in pl[1:]:
+        if isinstance(p, list) and p[0] == "f":
+            return p[2]
+    return None
+
+
+def self_field_sites(f, b, callee_writes="must", _stack=()):
+    """(reads, writes): field name -> set of blocks of `b` in which the field of *self* is read / written.
+    A `&mut self.field` borrow counts as both; a call that passes self on contributes the callee's
+    may-read set and its MUST-write set (fields written on every path to the callee's return)."""
+    S = self_aliases(b)
+    R, W = {}, {}
+    for i, j, lhs, rv, line in b.assigns():
+        if i not in b.live:
+            continue
+        fl = _self_field(S, lhs)
+        if fl:
+            W.setdefault(fl, set()).add(i)
+        for pl in rvalue_places(rv):
+            fr = _self_field(S, pl)
+            if fr:
+                R.setdefault(fr, set()).add(i)
+                if rv[0] == "ref" and rv[1]:
+                    W.setdefault(fr, set()).add(i)
+    for c in b.calls:
+        if c.bb not in b.live or not c.args:
+            continue
+        a = c.args[0]
+        if a[0] in ("c", "m") and a[1][0] in S and all(p == "*" for p in a[1][1:]):
+            for t in c.targets:
+                cid = f.canon_to_id.get(t)
+                if cid is None or cid in _stack or len(_stack) > 6:
+                    continue
+                r2, w2 = self_field_summary(f, f.bodies[cid], callee_writes, _stack + (b.id,))
+                for x in r2:
+                    R.setdefault(x, set()).add(c.bb)
+                for x in w2:
+                    W.setdefault(x, set()).add(c.bb)
+    return R, W
+
+
+def self_field_summary(f, b, callee_writes="must", _stack=()):
+    """(may-read fields, must-write [or may-write] fields) of a method on self"""
+    R, W = self_field_sites(f, b, callee_writes, _stack=_stack)
+    if callee_writes == "may":
+        return set(R), set(W)
+    ex = [x for x, k in exits(b)] or b.rets
+    must = set()
+    for fld, blocks in W.items():
+        if all(b.set_dominates(blocks, x) or x in blocks for x in ex):
+            must.add(fld)
+    return set(R), must
+
+
+def reach_cut(body, starts, avoid=(), cut_edges=()):
+    """blocks reachable from `starts` without expanding `avoid` blocks and without following the CFG edges in
+    `cut_edges` (pairs (from_bb, to_bb))"""
+    avoid = set(avoid)
+    cut = set(cut_edges)
+    seen = set(starts)
+    st = list(starts)
+    while st:
+        x = st.pop()
+        if x in avoid:
+            continue
+        for y in body.succ[x]:
+            if (x, y) in cut or y in seen:
+                continue
+            seen.add(y)
+            st.append(y)
+    return seen
